@@ -264,6 +264,9 @@ def cap_only(repo, chk):
             ok = True
         elif isinstance(base, ast.Call) and isinstance(base.func, ast.Name) and base.func.id in ('sorted', 'list', 'reversed') and base.args and isinstance(base.args[0], ast.Name) and base.args[0].id == cands:
             ok = True
+        elif isinstance(base, ast.Call) and isinstance(base.func, ast.Name) and base.func.id in ('sorted', 'list') and base.args and isinstance(base.args[0], ast.Name) \
+                and any(isinstance(n, ast.Assign) and isinstance(n.targets[0], ast.Name) and n.targets[0].id == base.args[0].id and ast.unparse(n.value) in (f'set({cands})', f'list({cands})', f'list(set({cands}))', f'tuple({cands})') for n in own_nodes(fn.node)):
+            ok = True      # a de-duplicated copy of a duplicate-free candidate list is the same set of pairs
         else:
             why = f'the prefix is taken of `{ast.unparse(base)[:80]}`, which is not (a re-ordering of) the whole candidate list: a filter before the cap can return fewer than min(cap, #candidates) pairs'
     elif isinstance(v, ast.Call) and m.dotted(v.func) in ('heapq.nsmallest', 'heapq.nlargest') and len(v.args) >= 2 and ast.unparse(v.args[0]) == cap and ast.unparse(v.args[1]) == cands:
